@@ -39,6 +39,7 @@ type Spec struct {
 	Joiner       bool       `json:"joiner"`        // a further reader joins while Close runs
 	PeerTeardown bool       `json:"peer_teardown"` // parked peers tear down concurrently with the Close
 	Noise        int        `json:"noise"`         // goroutines spinning runtime.Gosched around the Close
+	SlowCbUs     int        `json:"slow_cb_us"`    // packet callbacks take this long (a slow handler keeps the delivering goroutine busy)
 	Procs        int        `json:"procs"`         // GOMAXPROCS
 	WriteTimeout int        `json:"write_timeout_ms"`
 	ServerKind   string     `json:"server_kind,omitempty"` // target client: "real" | "mute" | "stall"
